@@ -5,9 +5,11 @@ patch="$1"; shift
 cd /repo || exit 2
 if [ -n "$(git status --porcelain)" ]; then echo "try_seed: /repo not clean"; exit 2; fi
 git apply "$patch" || { echo "try_seed: patch does not apply"; exit 2; }
+save=$(mktemp -d /tmp/evsave.XXXXXX); cp /verif/evidence/*.json "$save"/ 2>/dev/null
 for p in "$@"; do
   (cd /verif && VERIF_SEED=${VERIF_SEED:-1} ./check "$p" --tier "${TIER:-quick}" | grep -v "^KNOWN" | tail -3)
 done
 git -C /repo checkout -- . && git -C /repo clean -fdq
+cp "$save"/*.json /verif/evidence/ 2>/dev/null; rm -rf "$save"   # evidence of runs on a seeded tree is not kept
 # regenerate Gen for the clean tree so later builds are not confused
 (cd /verif && for t in gen_tables gen_limbs gen_asm gen_pins gen_effects; do [ -x .build/$t ] && .build/$t /repo lean/I3/Gen >/dev/null 2>&1; done; true)
